@@ -9,7 +9,7 @@ from typing import Any, Dict, List
 
 import sympy as sp
 
-from ..core import AnalysisError, Ctx, calls_in, dotted, norm, parent, walk_ordered
+from ..core import enclosing, AnalysisError, Ctx, calls_in, dotted, norm, parent, walk_ordered
 from ..model import get_model
 from ..numeric import RepoInterp
 from ..prov import unpack_of_param
@@ -88,28 +88,48 @@ def check(ctx: Ctx) -> None:
                 ctx.violation("R11.1", f"_reconstruct:formula:{branch}", REC, c, f"in the {branch} representation the reconstruction is {t} instead of 2/π·∫φ + γ·φ' = {want}")
     if covered != {False, True}:
         raise AnalysisError(f"_reconstruct: append sites cover only admittance ∈ {covered}")
-    q = [c for c in calls_in(rc.node) if dotted(c.func) == "quad"]
+    # the quadrature: in _reconstruct itself or in a helper of the same module it calls; bounds and integrand are mapped
+    # back to _reconstruct's names through the call
+    from ..prov import call_args
     ctx.instance("R11.1", "integration bounds: from ln ω of the first frequency to ln ω_0 of the current one, integrand = the phase interpolator")
-    ok = len(q) == 1
+    quads = [(c, None, None) for c in calls_in(rc.node) if dotted(c.func) == "quad"]
+    if not quads:
+        for hc in calls_in(rc.node):
+            hq = model.resolve_call(rc, hc)
+            if hq and hq in model.funcs and model.funcs[hq].module == REC and hq != rc.qname:
+                for c in calls_in(model.funcs[hq].node):
+                    if dotted(c.func) == "quad":
+                        quads.append((c, hc, model.funcs[hq]))
+    ok = len(quads) == 1
     if ok:
-        kw = {k.arg: norm(k.value) for k in q[0].keywords}
-        ok = norm(q[0].args[0]) == "interpolator" and kw.get("a") == "ln_w_s" and kw.get("b") == "ln_w_0" and norm(parent(q[0])) == norm(parent(q[0])) \
-            and isinstance(parent(q[0]), ast.Subscript) and norm(parent(q[0]).slice) == "0"
+        qc, hcall, hfi = quads[0]
+        kw = {k.arg: norm(k.value) for k in qc.keywords}
+        integrand, lo, hi = (norm(qc.args[0]) if qc.args else None), kw.get("a") or (norm(qc.args[1]) if len(qc.args) > 1 else None), kw.get("b") or (norm(qc.args[2]) if len(qc.args) > 2 else None)
+        if hcall is not None:
+            m_ = {k: (norm(v) if v is not None else None) for k, v in call_args(hcall, hfi.node).items()}
+            integrand, lo, hi = m_.get(integrand, integrand), m_.get(lo, lo), m_.get(hi, hi)
+        ok = integrand == "interpolator" and lo == "ln_w_s" and isinstance(parent(qc), ast.Subscript) and norm(parent(qc).slice) == "0"
         s0 = [n for n in walk_ordered(rc.node) if isinstance(n, (ast.Assign, ast.AnnAssign)) and norm(n.targets[0] if isinstance(n, ast.Assign) else n.target) == "ln_w_s"]
-        lp = [n for n in walk_ordered(rc.node) if isinstance(n, ast.For) and norm(n.iter) == "enumerate(ln_omega)"]
-        ok = ok and len(s0) == 1 and norm(s0[0].value) == "ln_omega[0]" and len(lp) == 1 and norm(lp[0].target) == "(i, ln_w_0)"
-        dv = [n for n in walk_ordered(rc.node) if isinstance(n, (ast.Assign, ast.AnnAssign)) and norm(n.targets[0] if isinstance(n, ast.Assign) else n.target) == "derivative" and n.value is not None]
-        ok = ok and any(norm(n.value) == "derivator(ln_w_0)" for n in dv)
+        lp = [n for n in walk_ordered(rc.node) if isinstance(n, ast.For) and norm(n.iter) in ("enumerate(ln_omega)", "ln_omega")]
+        ok = ok and len(s0) == 1 and norm(s0[0].value) == "ln_omega[0]" and len(lp) == 1
+        if ok:
+            lv = norm(lp[0].target.elts[1]) if isinstance(lp[0].target, ast.Tuple) else norm(lp[0].target)
+            dv = [n for n in walk_ordered(rc.node) if isinstance(n, (ast.Assign, ast.AnnAssign)) and norm(n.targets[0] if isinstance(n, ast.Assign) else n.target) == "derivative" and n.value is not None]
+            ok = hi == lv and any(norm(n.value) == f"derivator({lv})" for n in dv)
+            # the integral used in the formula is this call's result (directly, or through the helper's return value)
+            site = hcall if hcall is not None else qc
+            ok = ok and enclosing(site, (ast.For,)) is lp[0]
     if ok:
         ctx.ok()
     else:
         ctx.violation("R11.1", "_reconstruct:integral", REC, rc.node, "the integral must run over the phase interpolator from ln ω[0] to the current ln ω, and the derivative be taken at the current ln ω")
     rm = model.fi(REC, "_reconstruct_modulus_data")
     unp = unpack_of_param(rc.node, "args")
-    packs = [c for c in calls_in(rm.node) if norm(c.func) == "args.append" and c.args and isinstance(c.args[0], ast.Tuple)]
+    from ..prov import worker_tuples
+    packs = worker_tuples(rm.node, "args")
     ctx.instance("R11.1", "worker tuple: derivator is the first derivative of the same interpolator")
-    if unp and len(packs) == 1 and len(packs[0].args[0].elts) == len(unp):
-        el = [norm(e) for e in packs[0].args[0].elts]
+    if unp and len(packs) == 1 and len(packs[0].elts) == len(unp):
+        el = [norm(e) for e in packs[0].elts]
         pos = {n: i for i, n in enumerate(unp)}
         good = el[pos["interpolator"]] == "interpolator" and el[pos["derivator"]] == "interpolator.derivative(1)" and el[pos["ln_omega"]] == "ln_omega" \
             and el[pos["smoothing"]] == "smoothing" and el[pos["interpolation"]] == "interpolation" and el[pos["admittance"]] == "admittance"
@@ -186,9 +206,9 @@ def check(ctx: Ctx) -> None:
         ctx.violation("R11.3", "phase-pairing", REC, rm.node, "a reconstruction must be paired with the phase simulated by the very interpolator (interpolation, smoothing) it was computed from")
     unp2 = unpack_of_param(ao.node, "args")
     am = model.fi(OFF, "_adjust_modulus_offset")
-    packs2 = [c for c in calls_in(am.node) if norm(c.func) == "args.append" and c.args and isinstance(c.args[0], ast.Tuple)]
+    packs2 = worker_tuples(am.node, "args")
     ctx.instance("R11.3", "offset worker tuple: (ln_modulus, phase, ln_modulus_exp, weights, X_exp, …) positions agree")
-    if unp2 and len(packs2) == 1 and [norm(e) for e in packs2[0].args[0].elts] == unp2:
+    if unp2 and len(packs2) == 1 and [norm(e) for e in packs2[0].elts] == unp2:
         ctx.ok()
     else:
         ctx.violation("R11.3", "_adjust_modulus_offset:tuple", OFF, am.node, f"worker tuple does not match the worker's unpacking {unp2}")
